@@ -2,8 +2,10 @@
 L1 — xsdata/utils/dates.py : DateTimeParser, validate_*, format_*,
 and xsdata/models/datatype.py : XmlDate / XmlTime / XmlDateTime from_string / __str__.
 
-The model follows the code line by line, *including* its leniencies
-(`int()` accepting signs/blanks/underscores, slices running off the end).
+The model follows the code line by line, *including* its leniencies (slices
+running off the end, `isdigit()` loops over non-ASCII digits, offsets up to
+99:99, an empty fraction after the point); digit runs are converted by the
+strict `parse_int` (ASCII digits only).
 Every exception inside `DateTimeParser.parse` becomes `ValueError`, so the
 result type is `Option`.
 -/
@@ -27,11 +29,16 @@ def PS.peek (p : PS) : Option Char := p.value[p.vidx]?
 def PS.skip (p : PS) (c : Char) : Option PS :=
   if p.hasMore && p.peek == some c then some { p with vidx := p.vidx + 1 } else none
 
+/-- `DateTimeParser.parse_int(raw)`: `raw.isascii() and raw.isdigit()` (a
+non-empty run of ASCII digits), then `int(raw)` -/
+def parseInt (e : Env) (raw : Str) : Option Int :=
+  if !raw.isEmpty && raw.all isAsciiDigit then e.pyInt raw else none
+
 /-- `self.parse_digits(n)` -/
 def parseDigits (e : Env) (p : PS) (n : Nat) : Option (Int × PS) :=
   let start := p.vidx
   let p' := { p with vidx := p.vidx + n }
-  (e.pyInt (slice p.value start p'.vidx)).map (·, p')
+  (parseInt e (slice p.value start p'.vidx)).map (·, p')
 
 /-- the `while self.has_more() and self.peek().isdigit(): self.vidx += 1` loop,
 optionally bounded (`parse_fixed_digits`); `fuel` bounds the recursion by the
@@ -49,13 +56,13 @@ def parseMinimumDigits (e : Env) (p : PS) (n : Nat) : Option (Int × PS) :=
   let start := p.vidx
   let v1 := p.vidx + n
   let v2 := scanDigits e p.value (p.value.length + 1) v1 none
-  (e.pyInt (slice p.value start v2)).map (·, { p with vidx := v2 })
+  (parseInt e (slice p.value start v2)).map (·, { p with vidx := v2 })
 
 /-- `self.parse_fixed_digits(n)` -/
 def parseFixedDigits (e : Env) (p : PS) (n : Nat) : Option (Int × PS) :=
   let start := p.vidx
   let v2 := scanDigits e p.value (p.value.length + 1) p.vidx (some n)
-  (e.pyInt (ljust (slice p.value start v2) n '0')).map (·, { p with vidx := v2 })
+  (parseInt e (ljust (slice p.value start v2) n '0')).map (·, { p with vidx := v2 })
 
 /-- `len(raw) - len(raw.lstrip("0"))` -/
 def leadingZeros (raw : Str) : Nat := raw.length - (raw.dropWhile (· = '0')).length
@@ -100,6 +107,7 @@ def parseOffset (e : Env) (p : PS) : Option (Option Int × PS) :=
           match parseDigits e p2 2 with
           | none => none
           | some (mm, p3) =>
+            if mm > 59 then none else
             let off := hh * 60 + mm
             some (some (if ctrl = '-' then off * (-1) else off * 1), p3)
     else none
